@@ -54,9 +54,11 @@ def h_generic_d2(ctx, n1, r, n2, is_eigh, use_stab, with_cap, fixed_q=False):
     e = ctx.real('e')
     ctx.assume(ctx.gt(e, 0))
     ctx.assume(ctx.lt(e, 1))
-    cap = ctx.integer('cap') if with_cap else None
-    if with_cap:
+    if with_cap is True:
+        cap = ctx.integer('cap')
         ctx.assume(ctx.ge(cap, 1))
+    else:
+        cap = int(with_cap) if with_cap else None
     Z = teneva.truncate(Y, e, cap if with_cap else 1.E+12, use_stab=use_stab, is_eigh=is_eigh)
     ctx.claim('well_formed', well_formed(Z, [n1, n2]))
     ctx.claim('finite', finite(ctx, Z))
@@ -96,9 +98,12 @@ def h_quasi(ctx, d, n, is_eigh, use_stab, with_cap, shift=0, lead=False):
     e = ctx.real('e')
     ctx.assume(ctx.gt(e, 0))
     ctx.assume(ctx.lt(e, 1))
-    cap = ctx.integer('cap') if with_cap else None
-    if with_cap:
+    # with_cap: True = symbolic integer cap, an integer = that concrete cap
+    if with_cap is True:
+        cap = ctx.integer('cap')
         ctx.assume(ctx.ge(cap, 1))
+    else:
+        cap = int(with_cap) if with_cap else None
     Z = teneva.truncate(Y, e, cap if with_cap else 1.E+12, use_stab=use_stab, is_eigh=is_eigh)
     ctx.claim('well_formed', well_formed(Z, [n] * dd))
     ctx.claim('finite', finite(ctx, Z))
@@ -211,6 +216,39 @@ def h_add_many(ctx, n, trunc_freq, cap=None):
     ctx.claim('finite', finite(ctx, Z))
 
 
+def h_add_many_cancel(ctx, trunc_freq, cap):
+    """add_many([A, B, -B]) with an intermediate rounding of A + B and a cap that
+    is idle for the exact total A (rank 1) but below the rank of the partial sum:
+    the cap must not be applied to partial sums (d = 3, disjoint supports)."""
+    d, n = 3, 2
+    Ys, a = [], []
+    for i in range(2):
+        wv = vec(ctx, f'c{i}', d)
+        cores, p = [], ctx.const(1)
+        for k in range(d):
+            ctx.assume(ctx.gt(wv[k], 0))
+            G = zeros(ctx, (1, n, 1))
+            G[0, i, 0] = wv[k]
+            cores.append(G)
+            p = p * wv[k]
+        Ys.append(cores)
+        a.append(p)
+    neg = [G.copy() for G in Ys[1]]
+    neg[0] = neg[0] * (-1)
+    e = ctx.real('e')
+    ctx.assume(ctx.gt(e, 0))
+    ctx.assume(ctx.lt(e, 1))
+    Z = teneva.add_many([Ys[0], Ys[1], neg], e=e, r=cap, trunc_freq=trunc_freq)
+    ctx.claim('well_formed', well_formed(Z, [n] * d))
+    ctx.claim('rank_le_cap', all(G.shape[2] <= max(1, cap) for G in Z))
+    F0 = zeros(ctx, (n,) * d)
+    F0[(0,) * d] = a[0]
+    err2 = sumsq(ref_full(Z) - F0)
+    # two rounding steps, each within e times the norm of what it rounds (<= ||A + B||)
+    ctx.claim('error_bound_accumulated', ctx.le(err2, e * e * (a[0] * a[0] + a[1] * a[1]) * 4))
+    ctx.claim('finite', finite(ctx, Z))
+
+
 def h_concrete_wide_spectrum(ctx):
     """Real code, fixed inputs with singular values spread over many orders of
     magnitude and accuracies between them (tail energies far below the double
@@ -244,6 +282,8 @@ def instances(tier):
     out = []
     quick = tier == 'quick'
     out.append({'func': 'h_concrete_wide_spectrum', 'params': {}, 'opts': {'concrete_only': True}})
+    for tf, cap in [(2, 1), (1, 1), (2, 2)]:
+        out.append({'func': 'h_add_many_cancel', 'params': {'trunc_freq': tf, 'cap': cap}})
     gen = [(2, 2, 2)] if quick else [(2, 2, 2), (2, 1, 2)]
     for (n1, r, n2) in gen:
         for is_eigh in (True, False):
@@ -255,6 +295,9 @@ def instances(tier):
     for is_eigh in (True, False):
         out.append({'func': 'h_generic_d2', 'params': {'n1': 3, 'r': 3, 'n2': 2, 'is_eigh': is_eigh, 'use_stab': False,
                                                        'with_cap': False, 'fixed_q': True}})
+        # three singular values, cap 2 (d = 2: the per-unfolding budget is the whole budget)
+        out.append({'func': 'h_generic_d2', 'params': {'n1': 3, 'r': 3, 'n2': 3, 'is_eigh': is_eigh, 'use_stab': False,
+                                                       'with_cap': 2, 'fixed_q': True}})
     qd = [(3, 2), (4, 2)] if quick else [(3, 2), (4, 2), (3, 3), (5, 2)]
     for d, n in qd:
         for is_eigh in (True, False):
@@ -268,6 +311,13 @@ def instances(tier):
                         # LAPACK sign conventions fixed to +1 in the quick tier (thorough: symbolic signs)
                         inst['opts'] = {'symbolic_signs': False}
                     out.append(inst)
+    # three singular values per unfolding with a symbolic cap (cap between the e-rank and the number of values)
+    if quick:
+        out.append({'func': 'h_quasi', 'params': {'d': 3, 'n': 3, 'is_eigh': False, 'use_stab': False, 'with_cap': True},
+                    'opts': {'symbolic_signs': False}})
+    for is_eigh in (True, False):
+        out.append({'func': 'h_quasi', 'params': {'d': 3, 'n': 3, 'is_eigh': is_eigh, 'use_stab': False, 'with_cap': 2},
+                    'opts': {'symbolic_signs': False}})
     # permuted bond gauge (non-symmetric square unfoldings) and a leading rank-1 bond
     for is_eigh in (True, False):
         inst = {'func': 'h_quasi', 'params': {'d': 3, 'n': 2, 'is_eigh': is_eigh, 'use_stab': False, 'with_cap': False,
